@@ -125,12 +125,17 @@ Definition lyds_append (s : lst) (x : A) : lst := mkLst (sibs s ++ [x]) (rbt s).
            if (first_llist) insert_order = LYD_INSERT_NODE_LAST;            -- the rest is appended
            else first_llist = orig;
            lyd_dup_r(orig, ..., insert_order) -> lyd_insert_node(parent, ..., dup, insert_order);
-           if (first_llist && <not alone>) first_llist = NULL;              -- after EVERY duplicate: the order must be
-                                                                               found for the next one
-   after   : the parent has children behind the instances of this (leaf-)list (then dup->next is never NULL)
-   fixed   : true  - <not alone> = dup->next || (dup->prev->next && dup->prev->schema == dup->schema)   (the fixed code)
-             false - <not alone> = dup->next                                 (before the fix: a duplicate that lands behind
-                     EXISTING instances keeps the append path, the appended duplicates never enter the leader's tree) *)
+           if (first_llist && <not alone>) first_llist = NULL;              -- the order must be found for the next one
+   after   : the parent has children behind the instances of this (leaf-)list (then dup->next is never NULL for a
+             duplicate inserted by the default path)
+   fixed   : true  - <not alone> = dup->next || (first_llist == orig && dup->prev->next && dup->prev->schema == dup->schema)
+                     (the code as of /repo 03a093d: previous instances are looked for when the FIRST instance is duplicated)
+             false - <not alone> = dup->next          (before /repo d989bef: a duplicate that lands behind EXISTING
+                     instances keeps the append path, the appended duplicates never enter the leader's tree)
+   A duplicate appended with LYD_INSERT_NODE_LAST is the last sibling (dup->next == NULL) and is not first_llist, so
+   once the append path is taken it is kept for all further instances.
+   (Between d989bef and 03a093d the test for previous instances was made for every duplicate: from the third instance
+   on every duplicate was inserted by a sorted search and unsorted sources changed their order.) *)
 Definition dup_alone (fixed after : bool) (s : lst) (x : A) : bool :=
   negb after &&
   (if fixed then match sibs s with [_] => true | _ => false end
@@ -140,7 +145,7 @@ Fixpoint lyds_dup_rest (fixed after fast : bool) (s : lst) (xs : list A) : optio
   match xs with
   | [] => Some s
   | x :: xs' =>
-    if fast then lyds_dup_rest fixed after (dup_alone fixed after (lyds_append s x) x) (lyds_append s x) xs'
+    if fast then lyds_dup_rest fixed after true (lyds_append s x) xs'
     else
       match lyds_insert s x false with
       | None => None
